@@ -197,20 +197,26 @@ Section ParProof.
   Definition Final (i : nat) (x : K) : V := sh (run 0 i (body i) st_ref) x.
   Definition isolog (i : nat) : list C := proj i (clog (run 0 i (body i) st_ref)).
 
+  (* wave 3: the invariant is relative to the set `cov` of iterations some thread has been given (all of them for a
+     valid assignment; a proper subset when the team runs only part of the iteration space) *)
+  Section Partial.
+  Variable cov : nat -> Prop.
+
   Record Inv (qs : queues) (st : state) : Prop := {
     inv_nodup : forall t, NoDup (ids (qs t));
     inv_uniq : forall t u i, In i (ids (qs t)) -> In i (ids (qs u)) -> t = u;
     inv_lt : forall t i, In i (ids (qs t)) -> i < n;
+    inv_cov : forall t i, In i (ids (qs t)) -> cov i;
     inv_tail : forall t i p r, qs t = (i, p) :: r -> forall j q, In (j, q) r -> q = body j;
     inv_hw : forall t i p r, qs t = (i, p) :: r -> within (R i) (W i) p;
     inv_head : forall t i p r, qs t = (i, p) :: r ->
        (forall x, W i x -> sh (run t i p st) x = Final i x) /\
        proj i (clog (run t i p st)) = isolog i;
-    inv_fin : forall i, i < n -> (forall t, ~ In i (ids (qs t))) ->
+    inv_fin : forall i, i < n -> cov i -> (forall t, ~ In i (ids (qs t))) ->
        (forall x, W i x -> sh st x = Final i x) /\ proj i (clog st) = isolog i;
     inv_ulog : forall t i p r j, qs t = (i, p) :: r -> In j (ids r) -> proj j (clog st) = [];
     inv_m0 : forall x,
-       (forall j, j < n -> W j x -> exists t i p r, qs t = (i, p) :: r /\ In j (ids r)) ->
+       (forall j, j < n -> W j x -> ~ cov j \/ exists t i p r, qs t = (i, p) :: r /\ In j (ids r)) ->
        sh st x = m0 x;
     inv_tags : forall j c, In (j, c) (clog st) -> j < n
   }.
@@ -251,6 +257,7 @@ Section ParProof.
       + rewrite setq_other by exact Hne. apply (inv_nodup _ _ HI).
     - intros a b j Ha Hb. apply (inv_uniq _ _ HI a b j); apply Hids; assumption.
     - intros a j Ha. apply (inv_lt _ _ HI a j). apply Hids. exact Ha.
+    - intros a j Ha. apply (inv_cov _ _ HI a j). apply Hids. exact Ha.
     - intros a i1 p1 r1 Ha j q Hin. destruct (Nat.eq_dec a t) as [->|Hne].
       + rewrite setq_same in Ha. apply (inv_tail _ _ HI t i Ret r Hq j q).
         rewrite Ha. right. exact Hin.
@@ -274,15 +281,15 @@ Section ParProof.
         destruct Hfr as [Hf1 Hf2].
         * intros x Hx. cbn. apply (inv_m0 _ _ HI x). intros j Hj HWj.
           destruct (Nat.eq_dec j i1) as [->|Hne].
-          -- exists t, i, Ret, r. split; [exact Hq|exact Hin1].
+          -- right. exists t, i, Ret, r. split; [exact Hq|exact Hin1].
           -- exfalso. exact (Hdisj j i1 x Hj Hlt1 Hne HWj Hx).
         * intros x [].
         * cbn. rewrite (inv_ulog _ _ HI t i Ret r i1 Hq Hin1). reflexivity.
         * split; [|exact Hf2]. intros x Hx. apply Hf1. right. exact Hx.
       + rewrite setq_other in Ha by exact Hne. apply (inv_head _ _ HI a i1 p1 r1 Ha).
-    - intros j Hj Hnq. destruct (Nat.eq_dec j i) as [->|Hne].
+    - intros j Hj Hcj Hnq. destruct (Nat.eq_dec j i) as [->|Hne].
       + exact (inv_head _ _ HI t i Ret r Hq).
-      + apply (inv_fin _ _ HI j Hj). intros u Hin. destruct (Nat.eq_dec u t) as [->|Hut].
+      + apply (inv_fin _ _ HI j Hj Hcj). intros u Hin. destruct (Nat.eq_dec u t) as [->|Hut].
         * rewrite Hq in Hin. cbn in Hin. destruct Hin as [Heq|Hin]; [congruence|].
           apply (Hnq t). rewrite setq_same. exact Hin.
         * apply (Hnq u). rewrite setq_other by exact Hut. exact Hin.
@@ -290,7 +297,8 @@ Section ParProof.
       + rewrite setq_same in Ha. apply (inv_ulog _ _ HI t i Ret r j Hq).
         rewrite Ha. cbn. right. exact Hj.
       + rewrite setq_other in Ha by exact Hne. apply (inv_ulog _ _ HI a i1 p1 r1 j Ha Hj).
-    - intros x Hx. apply (inv_m0 _ _ HI x). intros j Hj HWj. apply Hunst. apply Hx; assumption.
+    - intros x Hx. apply (inv_m0 _ _ HI x). intros j Hj HWj.
+      destruct (Hx j Hj HWj) as [Hn|He]; [left; exact Hn|right; apply Hunst; exact He].
     - apply (inv_tags _ _ HI).
   Qed.
 
@@ -322,6 +330,7 @@ Section ParProof.
     - intros u. rewrite Hids. apply (inv_nodup _ _ HI).
     - intros a b j. rewrite !Hids. apply (inv_uniq _ _ HI).
     - intros a j. rewrite Hids. apply (inv_lt _ _ HI).
+    - intros a j. rewrite Hids. apply (inv_cov _ _ HI).
     - intros a i1 p1 r1 Ha j q Hin. destruct (Htails a i1 p1 r1 Ha) as [p2 Hq2].
       exact (inv_tail _ _ HI a i1 p2 r1 Hq2 j q Hin).
     - intros a i1 p1 r1 Ha. destruct (Nat.eq_dec a t) as [->|Hne].
@@ -345,10 +354,10 @@ Section ParProof.
         * destruct (inv_head _ _ HI a i1 p1 r1 Ha) as [Hh1 Hh2]. split.
           -- intros x Hx. rewrite (Hf1 x (or_intror Hx)). apply Hh1. exact Hx.
           -- rewrite Hf2. exact Hh2.
-    - intros j Hj Hnq.
+    - intros j Hj Hcj Hnq.
       assert (Hnq' : forall u, ~ In j (ids (qs u))) by (intros u; rewrite <- Hids; apply Hnq).
       assert (Hji : j <> i) by (intros ->; exact (Hnq' t Hi_in)).
-      destruct (inv_fin _ _ HI j Hj Hnq') as [Hf1 Hf2]. split.
+      destruct (inv_fin _ _ HI j Hj Hcj Hnq') as [Hf1 Hf2]. split.
       + intros x Hx. rewrite Esh; [apply Hf1; exact Hx|].
         intros HWi. exact (Hdisj j i x Hj Hilt Hji Hx (or_intror HWi)).
       + rewrite Elog by exact Hji. exact Hf2.
@@ -360,9 +369,10 @@ Section ParProof.
       rewrite Elog by exact Hji. exact (inv_ulog _ _ HI a i1 p2 r1 j Hq2 Hj).
     - intros x Hx. rewrite Esh.
       + apply (inv_m0 _ _ HI x). intros j Hj HWj.
-        destruct (Hx j Hj HWj) as (u & i0 & p0 & r0 & Hu & Hin).
-        destruct (Htails u i0 p0 r0 Hu) as [p1 Hq1]. exists u, i0, p1, r0. split; assumption.
-      + intros HWi. destruct (Hx i Hilt HWi) as (u & i0 & p0 & r0 & Hu & Hin).
+        destruct (Hx j Hj HWj) as [Hn|(u & i0 & p0 & r0 & Hu & Hin)]; [left; exact Hn|].
+        destruct (Htails u i0 p0 r0 Hu) as [p1 Hq1]. right. exists u, i0, p1, r0. split; assumption.
+      + intros HWi. destruct (Hx i Hilt HWi) as [Hn|(u & i0 & p0 & r0 & Hu & Hin)];
+          [exact (Hn (inv_cov _ _ HI t i Hi_in))|].
         destruct (Htails u i0 p0 r0 Hu) as [p1 Hq1].
         destruct (Nat.eq_dec u t) as [->|Hne].
         * rewrite Hq in Hq1. injection Hq1 as <- <- <-. contradiction.
@@ -394,10 +404,11 @@ Section ParProof.
     intros. unfold init_queues. rewrite map_map. cbn. apply map_id.
   Qed.
 
-  Lemma Inv_init : forall asg p0, valid_asg n asg ->
+  Lemma Inv_init : forall asg p0, partial_asg n asg ->
+    (forall t i, In i (asg t) -> cov i) -> (forall i, i < n -> cov i -> exists t, In i (asg t)) ->
     Inv (init_queues body asg) (mkState m0 p0 []).
   Proof.
-    intros asg p0 (Hnd & Hun & Hlt & Hall).
+    intros asg p0 (Hnd & Hun & Hlt) Hcin Hall.
     assert (Hb : forall t j q, In (j, q) (init_queues body asg t) -> q = body j).
     { intros t j q Hin. unfold init_queues in Hin. apply in_map_iff in Hin.
       destruct Hin as (j' & Heq & _). injection Heq as <- <-. reflexivity. }
@@ -405,6 +416,7 @@ Section ParProof.
     - intros t. rewrite ids_init. apply Hnd.
     - intros t u i. rewrite !ids_init. apply Hun.
     - intros t i. rewrite ids_init. apply Hlt.
+    - intros t i. rewrite ids_init. apply Hcin.
     - intros t i p r Hq j q Hin. apply (Hb t j q). rewrite Hq. right. exact Hin.
     - intros t i p r Hq.
       assert (p = body i) as -> by (apply (Hb t i p); rewrite Hq; left; reflexivity).
@@ -417,7 +429,7 @@ Section ParProof.
                   (Hwithin i Hi) (Hreinit i Hi)) as [Hf1 Hf2];
         [intros x _; reflexivity|intros x []|reflexivity|].
       split; [|exact Hf2]. intros x Hx. apply Hf1. right. exact Hx.
-    - intros i Hi Hnq. exfalso. destruct (Hall i Hi) as [t Ht]. apply (Hnq t).
+    - intros i Hi Hci Hnq. exfalso. destruct (Hall i Hi Hci) as [t Ht]. apply (Hnq t).
       rewrite ids_init. exact Ht.
     - reflexivity.
     - reflexivity.
@@ -446,7 +458,43 @@ Section ParProof.
     - exact (Hdisj j i x Hjl Hil (fun e => Hij (eq_sym e)) (Aq2 Hw) Ap1).
   Qed.
 
+  End Partial.
+
   (* ------------------------------------------------------------------ main theorem *)
+  (* wave 3: for an assignment that gives every iteration to AT MOST one thread (the team that runs the region
+     executes only part of the iteration space): still no race; when done, the footprint of every iteration
+     that WAS given to a thread holds what that iteration leaves there, and every key whose only writers are
+     iterations nobody was given still holds its INITIAL value — "the rows of the missing threads are never
+     written" *)
+  Theorem bernstein_partial : forall asg p0 sch qs st,
+    partial_asg n asg ->
+    run_sched sch (init_queues body asg, mkState m0 p0 []) = (qs, st) ->
+    ~ race qs /\
+    (done qs ->
+       (forall i x, i < n -> covered asg i -> W i x -> sh st x = Final i x) /\
+       (forall x, (forall i, i < n -> W i x -> ~ covered asg i) -> sh st x = m0 x) /\
+       (forall i, i < n -> covered asg i -> proj i (clog st) = isolog i) /\
+       (forall j c, In (j, c) (clog st) -> j < n)).
+  Proof.
+    intros asg p0 sch qs st Hasg Hrun.
+    assert (HI : Inv (covered asg) qs st).
+    { generalize (Inv_sched (covered asg) sch _ _
+                    (Inv_init (covered asg) asg p0 Hasg (fun t i H => ex_intro _ t H) (fun i _ H => H))).
+      rewrite Hrun. auto. }
+    split; [exact (Inv_no_race _ _ _ HI)|].
+    intros Hdone.
+    assert (Hnq : forall i t, ~ In i (ids (qs t))) by (intros i t; rewrite (Hdone t); intros []).
+    repeat split.
+    - intros i x Hi Hc Hx. exact (proj1 (inv_fin _ _ _ HI i Hi Hc (Hnq i)) x Hx).
+    - intros x Hx. apply (inv_m0 _ _ _ HI x). intros j Hj HWj. left. exact (Hx j Hj HWj).
+    - intros i Hi Hc. exact (proj2 (inv_fin _ _ _ HI i Hi Hc (Hnq i))).
+    - exact (inv_tags _ _ _ HI).
+  Qed.
+
+  Lemma valid_partial : forall asg, valid_asg n asg ->
+    partial_asg n asg /\ forall i, i < n -> covered asg i.
+  Proof. intros asg (A & B & C0 & D). split; [repeat split; assumption|exact D]. Qed.
+
   Theorem bernstein : forall asg p0 sch qs st,
     valid_asg n asg ->
     run_sched sch (init_queues body asg, mkState m0 p0 []) = (qs, st) ->
@@ -458,16 +506,14 @@ Section ParProof.
        (forall j c, In (j, c) (clog st) -> j < n)).
   Proof.
     intros asg p0 sch qs st Hasg Hrun.
-    assert (HI : Inv qs st).
-    { generalize (Inv_sched sch _ _ (Inv_init asg p0 Hasg)). rewrite Hrun. auto. }
-    split; [exact (Inv_no_race _ _ HI)|].
-    intros Hdone.
-    assert (Hnq : forall i t, ~ In i (ids (qs t))) by (intros i t; rewrite (Hdone t); intros []).
+    destruct (valid_partial asg Hasg) as [Hp Hc].
+    destruct (bernstein_partial asg p0 sch qs st Hp Hrun) as [Hnr Hd].
+    split; [exact Hnr|]. intros Hdone. destruct (Hd Hdone) as (A & B & C0 & D).
     repeat split.
-    - intros i x Hi Hx. exact (proj1 (inv_fin _ _ HI i Hi (Hnq i)) x Hx).
-    - intros x Hx. apply (inv_m0 _ _ HI x). intros j Hj HWj. exfalso. exact (Hx j Hj HWj).
-    - intros i Hi. exact (proj2 (inv_fin _ _ HI i Hi (Hnq i))).
-    - exact (inv_tags _ _ HI).
+    - intros i x Hi Hx. exact (A i x Hi (Hc i Hi) Hx).
+    - intros x Hx. apply B. intros i Hi HWi _. exact (Hx i Hi HWi).
+    - intros i Hi. exact (C0 i Hi (Hc i Hi)).
+    - exact D.
   Qed.
 
   (* ------------------------------------------------------------------ the sequential run is a schedule *)
